@@ -1,6 +1,6 @@
 """Deterministic thread scheduler for property C07 (hook-free: nothing in /repo is instrumented).
 
-Mechanism: `threading.settrace` / `sys.settrace` line events + one baton.  Only the thread that holds the
+Mechanism: `sys.settrace` (installed by every scheduled thread on itself) line events + one baton.  Only the thread that holds the
 baton runs.  A thread can lose the baton ONLY when it is about to execute an *anchor statement* - a source
 statement of /repo/src/django_components that reads or writes process-global state of the library.  Anchor
 statements are located in the CURRENT source by (file, enclosing function, statement text) through `ast`, never
